@@ -804,6 +804,35 @@ fn main() {
                 judge(acc, idx, || format!("band {:?}", x), || extreme_norms_case(&x));
             },
         );
+        // magnitudes at which a single p-th power is still finite (or still non-zero) while the SUM of two or three of them is not:
+        // (MAX / n)^(1/p) .. MAX^(1/p) for the exponents p = 1.5, 3, 8 used by the value check, and the mirror image at the underflow end
+        let xp = [0.0, 1.0, 5e102, -5e102, 3.2e38, 3e205, 1e-108, -1e-41, 1e-216, -4.6e102];
+        let pmax = ctx.pick(3u32, 4u32);
+        let totalp: u64 = (1..=pmax).map(|k| 10u64.pow(k)).sum();
+        ctx.lattice(
+            "Vector<f64> norms where one p-th power fits but the sum of the powers does not: all vectors of length 1..3 (thorough 1..4) over {0,1,+-5e102,-4.6e102,3.2e38,3e205,1e-108,-1e-41,1e-216}",
+            totalp,
+            |idx| format!("{}", idx),
+            |idx, acc| {
+                let mut i = idx;
+                let mut len = 1u32;
+                while i >= 10u64.pow(len) {
+                    i -= 10u64.pow(len);
+                    len += 1;
+                }
+                let x: Vec<f64> = (0..len).map(|_| {
+                    let v = xp[(i % 10) as usize];
+                    i /= 10;
+                    v
+                }).collect();
+                if x.iter().filter(|t| t.abs() > 1e100).count() >= 2 {
+                    acc.nontriv("sum of p-th powers overflows while each power is finite");
+                } else {
+                    acc.nontriv("p-th powers at the edge of the range");
+                }
+                judge(acc, idx, || format!("p-band {:?}", x), || extreme_norms_case(&x));
+            },
+        );
         // Complex<f64> vectors of extreme modulus, the largest entry at every position
         let c = |re: f64, im: f64| Cmplx::new(re, im);
         let cl = [c(0.0, 0.0), c(1.0, 0.0), c(1e200, 0.0), c(3e200, -4e200), c(0.0, 2e200), c(1e-200, 0.0), c(-3e-200, 4e-200), c(b.powi(-530), b.powi(-530))];
@@ -837,6 +866,45 @@ fn main() {
                         let g1 = v.norm_1();
                         ensure!((g1.real - want_1).abs() <= 8.0 * f64::EPSILON * want_1 && g1.imag == 0.0, "norm_1 = {:?} but the sum of moduli is {:e}", g1, want_1);
                     }
+                    Ok(())
+                });
+            },
+        );
+    }
+    {
+        // Complex<f64> entries of NEARLY EQUAL modulus (1e-6 .. 1e-3 apart, on the axes and next to the diagonal), in every order: the
+        // largest modulus must win wherever it stands - a shortcut that skips an entry after comparing its parts with the running
+        // maximum through a truncated sqrt(2) skips the near-diagonal one
+        let c = |re: f64, im: f64| Cmplx::new(re, im);
+        let nl = [c(0.0, 0.0), c(128.0, 128.0), c(181.0185546875, 0.0), c(0.0, -181.0193), c(-128.0003, 127.9996), c(181.01934, 0.0), c(90.5, 156.75), c(-127.99, -128.01), c(3.0, 4.0)];
+        let nmax = ctx.pick(4u32, 5u32);
+        let totaln: u64 = (1..=nmax).map(|k| 9u64.pow(k)).sum();
+        ctx.lattice(
+            "Vector<Complex<f64>> norm_inf / norm_1 on entries of nearly equal modulus (181.0 .. 181.02: on the axes, next to the diagonal, at 60 degrees): all vectors of length 1..4 (thorough 1..5) over 9 letters",
+            totaln,
+            |idx| format!("{}", idx),
+            |idx, acc| {
+                let mut i = idx;
+                let mut len = 1u32;
+                while i >= 9u64.pow(len) {
+                    i -= 9u64.pow(len);
+                    len += 1;
+                }
+                let x: Vec<Cmplx> = (0..len).map(|_| {
+                    let v = nl[(i % 9) as usize];
+                    i /= 9;
+                    v
+                }).collect();
+                acc.nontriv("complex vector with entries of nearly equal modulus");
+                judge(acc, idx, || format!("complex near-equal {:?}", x), || {
+                    let v = Vector::create(x.clone());
+                    let mods: Vec<f64> = x.iter().map(|z| z.real.hypot(z.imag)).collect();
+                    let want_inf = mods.iter().fold(0.0f64, |m, t| m.max(*t));
+                    let got = v.norm_inf();
+                    ensure!((got - want_inf).abs() <= 4.0 * f64::EPSILON * want_inf, "norm_inf = {:?} but the largest modulus is {:?}", got, want_inf);
+                    let want_1: f64 = mods.iter().sum();
+                    let g1 = v.norm_1();
+                    ensure!((g1.real - want_1).abs() <= 8.0 * f64::EPSILON * want_1 && g1.imag == 0.0, "norm_1 = {:?} but the sum of moduli is {:e}", g1, want_1);
                     Ok(())
                 });
             },
